@@ -95,10 +95,11 @@ theorem roundtrip_subckt_bb (o : Opts) (n : BNet) (t : String) (hw : WellNamed n
   cases hst
   simp only [astOfB, astOf] at hsf
   rw [elabModels_append] at hsf
-  obtain ⟨s0', hs0, hbbs⟩ := bind_ok hsf
+  obtain ⟨s0, hs0, hbbs⟩ := bind_ok hsf
   simp only [elabModels] at hs0
-  obtain ⟨s0, hm, hs0⟩ := bind_ok hs0
-  cases hs0
+  obtain ⟨sx, hm, hx⟩ := bind_ok hs0
+  have hxe : sx = s0 := by cases hx; rfl
+  rw [hxe] at hm
   -- the top model
   have hsorted := hn.1
   have facts := elab_model_facts o n t _ _ (outNames (n.findDef t)) (kidsOrd n t) (hdrOK_of n t hw ht hn) s0
